@@ -393,18 +393,23 @@ def check_dna(ctx, cs, m, j):
     mutate_all(d2, c)
     now = snap(cs.v)
     c1_after = TT.canon_value(d1)
+    ok3, d3 = decode(ctx, cs, dna, m)
+    c3 = TT.canon_value(d3) if ok3 else None
     if now != cs.before:
       ctx.violation('decode-aliases-template', cs.region(cs.before[2], now[2]),
                     f'mutating the value decoded from {dna!r} changed the template:\n'
                     f'before: {cs.before[1][:500]}\nafter:  {now[1][:500]}', cs.record)
-      cs.make()                        # heal
-      ok, d1 = decode(ctx, cs, dna, m)
-      if not ok:
-        return False
+    elif c3 != c1:
+      ctx.violation('decode-aliases-template', cs.region(c1, c3) if ok3 else cs.feature(),
+                    f'after mutating one value decoded from {dna!r}, decoding it again '
+                    f'gives another value (the value of the template looks unchanged): '
+                    f'{pg.format(d3, compact=True)[:600] if ok3 else "raised"}', cs.record)
     elif c1_after != c1:
       ctx.violation('decode-aliases-decode', cs.region(c1, c1_after),
                     f'mutating one value decoded from {dna!r} changed the other: '
                     f'{pg.format(d1, compact=True)[:600]}', cs.record)
+    if now != cs.before or c3 != c1 or c1_after != c1:
+      cs.make()                        # heal
       ok, d1 = decode(ctx, cs, dna, m)
       if not ok:
         return False
@@ -494,6 +499,9 @@ def check_dna(ctx, cs, m, j):
 def check_iter(ctx, cs, members):
   """pg.iter yields space_size pairwise different values: the reference set."""
   c = ctx.counters
+  if cs.size is None:
+    c['iter_skipped_infinite'] += 1       # Sweeping is defined for finite spaces
+    return
   full = members is not None and len(members) <= ctx.params['iter_max']
   limit = None if full else 4
   vals = []
@@ -820,8 +828,9 @@ def run_case(ctx, i):
     check_iter(ctx, cs, all_members)
     check_random(ctx, cs)
     check_nonmembers(ctx, cs, members)
-    if W['by'] == 'all' and not bad:
-      check_dynamic(ctx, cs, members)
+    if W['by'] == 'all' and not bad and not any(
+        p['name'] for p in TT.all_placeholders(T)):
+      check_dynamic(ctx, cs, members)       # names share decisions there: not generated
   n_members = cs.size if cs.size is not None else 2
   if n_members >= 2 and (W['by'] != 'all' or has_typed(T) or any(
       p['t'] == 'choice' and (p['k'] > 1 or is_conditional(p, W)) for _, p in cs.tops)):
